@@ -108,7 +108,8 @@ class RegistryServer(object):
         """implementation of the ``unregister`` command"""
         self.logger.debug("unregistering %s:%s", host, port)
         for name in list(self.services.keys()):
-            self._remove_service(name, (host, port))
+            if (host, port) in self.services[name]:
+                self._remove_service(name, (host, port))
         return "OK"
 
     def _recv(self):
